@@ -1265,7 +1265,7 @@ func (rn *runner) step(s *step) {
 		if ti != nil && now > ti.base-margin {
 			cls = "extended-by-" + ti.extBy
 		}
-		e.Stat("demanded|reach|"+cls+"|"+sigClass, 1)
+		e.Stat("expected-to-pass(not demanded)|"+cls+"|"+sigClass, 1)
 	default:
 		e.Stat("demanded|nothing", 1)
 	}
@@ -1302,8 +1302,11 @@ func (rn *runner) step(s *step) {
 			if ti != nil && now > ti.base-margin {
 				cls = "extended-by-" + ti.extBy
 			}
-			rn.viol("rejected|valid-request|"+cls+"|"+sigClass, "a valid unsafe request was rejected",
-				map[string]any{"status": resp.Status})
+			// The statement is one-sided for unsafe methods ("reaches the handler only if …"): a
+			// middleware that rejects more than it has to still satisfies it. Counted with a sample,
+			// never a verdict.
+			e.Stat("info_rejected_although_valid|"+cls+"|"+sigClass, 1)
+			e.Sample("info_rejected_although_valid|"+cls+"|"+sigClass, rn.detail(map[string]any{"status": resp.Status}))
 		} else {
 			e.Stat("unasserted_rejections", 1)
 		}
